@@ -109,11 +109,11 @@ theorem mul_succ_le_of_lt {d a b : Nat} (ha : d ∣ a) (hb : d ∣ b) (hlt : a <
     rw [Nat.mul_add, Nat.mul_one] at this
     exact this
 
-/-- Paths compose: the path of `p` up to `(Ht,S)` is its path up to an intermediate
-    aligned subtree `(h,s)` followed by the path of that subtree up to `(Ht,S)`. -/
-theorem subPath_comp (ls : List H) {h s p : Nat} (hs : 2 ^ h ∣ s) (h1 : s ≤ p) (h2 : p < s + 2 ^ h) :
+/-- Paths compose: the path from the `h0`-block of `p` up to `(Ht,S)` is its path up to an
+    intermediate aligned subtree `(h,s)` followed by the path of that subtree up to `(Ht,S)`. -/
+theorem subPath_comp' (ls : List H) {h0 h s p : Nat} (h0h : h0 ≤ h) (hs : 2 ^ h ∣ s) (h1 : s ≤ p) (h2 : p < s + 2 ^ h) :
     ∀ (Ht S : Nat), h ≤ Ht → 2 ^ Ht ∣ S → S ≤ s → s < S + 2 ^ Ht →
-    subPath ls 0 p Ht S = subPath ls 0 p h s ++ subPath ls h s Ht S := by
+    subPath ls h0 p Ht S = subPath ls h0 p h s ++ subPath ls h s Ht S := by
   intro Ht
   induction Ht with
   | zero =>
@@ -137,11 +137,25 @@ theorem subPath_comp (ls : List H) {h s p : Nat} (hs : 2 ^ h ∣ s) (h1 : s ≤ 
         (Nat.dvd_add_right (Nat.dvd_trans (Nat.pow_dvd_pow 2 (by omega)) hS)).2 (Nat.pow_dvd_pow 2 hh')
       by_cases hl : s < S + 2 ^ Ht
       · have hle := mul_succ_le_of_lt hs hsM hl
-        rw [subPath_left ls (Nat.zero_le _) (by omega : p < S + 2 ^ Ht), subPath_left ls hh' hl,
+        rw [subPath_left ls (by omega) (by omega : p < S + 2 ^ Ht), subPath_left ls hh' hl,
           ih S hh' (dvd_of_dvd_succ hS) h3 hl, List.append_assoc]
       · have hge : S + 2 ^ Ht ≤ s := by omega
-        rw [subPath_right ls (Nat.zero_le _) (by omega : S + 2 ^ Ht ≤ p), subPath_right ls hh' hge,
+        rw [subPath_right ls (by omega) (by omega : S + 2 ^ Ht ≤ p), subPath_right ls hh' hge,
           ih (S + 2 ^ Ht) hh' (dvd_add_pow hS) hge (by omega), List.append_assoc]
+
+theorem subPath_comp (ls : List H) {h s p : Nat} (hs : 2 ^ h ∣ s) (h1 : s ≤ p) (h2 : p < s + 2 ^ h) :
+    ∀ (Ht S : Nat), h ≤ Ht → 2 ^ Ht ∣ S → S ≤ s → s < S + 2 ^ Ht →
+    subPath ls 0 p Ht S = subPath ls 0 p h s ++ subPath ls h s Ht S :=
+  subPath_comp' ls (Nat.zero_le _) hs h1 h2
+
+/-- one level: the path from a `k`-block to the enclosing `(k+1)`-block is the sibling's root -/
+theorem subPath_one_left (ls : List H) (k s' : Nat) :
+    subPath ls k s' (k + 1) s' = [subRoot ls k (s' + 2 ^ k)] := by
+  rw [subPath_left ls (Nat.le_refl _) (by have := Nat.two_pow_pos k; omega), subPath_self]; rfl
+
+theorem subPath_one_right (ls : List H) (k s' : Nat) :
+    subPath ls k (s' + 2 ^ k) (k + 1) s' = [subRoot ls k s'] := by
+  rw [subPath_right ls (Nat.le_refl _) (Nat.le_refl _), subPath_self]; rfl
 
 /-- Completeness at the level of `proofRoot`: hashing the subtree root containing `p`
     up along the naive sibling path gives the enclosing subtree's root. -/
